@@ -40,8 +40,11 @@ impl PrettyPrint {
     ) -> Option<&Vec<String>> {
         // Load the file if we haven't already
         if !self.files.contains_key(file) {
-            let path = parser.reader.get_filename(*file)?;
-            let contents = fs::read_to_string(path).ok()?;
+            // The text that was analysed, not what the file holds by now:
+            // the positions in the diagnostics refer to the former, and a
+            // source that can be read only once (a pipe) cannot be opened
+            // again at all.
+            let contents = parser.reader.get_text(*file)?;
             let lines: Vec<String> = contents.split('\n').map(|s| s.to_string()).collect();
             self.files.insert(*file, lines);
         }
